@@ -509,10 +509,26 @@ def mf(k): return 7 * k + 3
 
 PERMS = list(itertools.permutations('abc'))
 
+STALE = (0, 4)     # sort classes that get a fourth field AFTER their list was cached (start-up)
+
 def encsort(k, items):
-    """the list sort_fields returned for sort class k, as 100k + index of the order of its field names"""
+    """the list sort_fields returned (or the cache entry (fti, list) it stored) for sort class k, as
+    100k + index of the order of its first three field names (+ 50 when the appended field 'd' follows)"""
+    if isinstance(items, tuple) and len(items) == 2 and isinstance(items[1], list):
+        items = items[1]
     names = tuple(n for n, _ in items)
+    if len(names) == 4 and names[3] == 'd' and names[:3] in PERMS:
+        return 100 * k + PERMS.index(names[:3]) + 50
     return 100 * k + (PERMS.index(names) if names in PERMS else 9)
+
+def stale_setup(w):
+    """start-up history of the STALE classes: a protocol sorts their fields, then the class gets another field
+    (append_field drops the memoized flat type info): the request threads find a list cached for a field
+    table the class no longer has"""
+    from spyne import Unicode
+    for k in STALE:
+        w.in_prot.sort_fields(w.skeys[k])
+        w.skeys[k].append_field('d', Unicode(order=3))
 
 
 class World(object):
@@ -736,6 +752,7 @@ def make_world(sched, instrument=True, validator='lxml', monitor=True, pre=False
         pass
     w.seen_docs = {}
     if not instrument:
+        stale_setup(w)
         return w
 
     def encval(k, attr):
@@ -756,6 +773,15 @@ def make_world(sched, instrument=True, validator='lxml', monitor=True, pre=False
     w.docnames = {}
     # locks
     wsgi._mtx_build_interface_document = LockProxy(sched, ACQ_W, REL_W)
+    # the other applications' locks: same baton-aware semantics (a thread that would block yields instead of
+    # blocking while it holds the baton), not part of the recorded access sequence
+    for name in ('jwsgi', 'xwsgi', 'ywsgi'):
+        if hasattr(w, name):
+            getattr(w, name)._mtx_build_interface_document = LockProxy(sched, 0, 0, silent=True)
+    for name in ('x_in', 'x_out', 'j_in', 'j_out', 'out_prot'):
+        o = getattr(w, name, None)
+        if o is not None and hasattr(o, '_validation_lock'):
+            o._validation_lock = LockProxy(sched, 0, 0, silent=True)
     if hasattr(in_prot, '_validation_lock'):
         in_prot._validation_lock = LockProxy(sched, ACQ_V, REL_V)
     w.memo.lock = LockProxy(sched, M_ACQ, M_REL, reentrant=True)
@@ -763,6 +789,7 @@ def make_world(sched, instrument=True, validator='lxml', monitor=True, pre=False
     # caches
     in_prot._attrcache = TracedCache(sched, lambda c: w.keyid.get(c), encval)
     in_prot._sortcache = TracedCache(sched, lambda c: w.skeyid.get(c), encsort, mode='sort')
+    stale_setup(w)
     # validator
     if in_prot.validation_schema is not None:
         in_prot.validation_schema = SchemaProxy(sched, in_prot.validation_schema, errid)
@@ -1227,6 +1254,14 @@ def judge(check, run):
                  'request %r raised %s under concurrency (alone: %r): %s' % (r, res[1], exp, res[2][-300:]))
             continue
         got = res[1]
+        if r[0] == 'sort':
+            # independent of the implementation: the orders were assigned by the harness, so the list every
+            # caller must get is known - all the fields the class has NOW, in the declared order
+            ref = ['vals', [100 * k + k % 6 + (50 if k in STALE else 0) for k in r[1]]]
+            if got != ref:
+                fail('C12|sort|not-the-declared-order',
+                     'sort_fields caller %d got %r; the fields the classes have now, in their declared order, are %r '
+                     '(a list cached for an earlier field table, or a wrong order)' % (i, got, ref))
         if (r[0] == 'wsdl' and got[1].startswith('200') and not got[5]) or \
                 (r[0] == 'xwsdl' and got[1].startswith('200') and MARKER.decode() not in got[3]):
             fail('C12|wsdl|published-before-document-built-handlers',
@@ -1320,7 +1355,7 @@ IMPORTS = 'From SpyneV Require Import Base.Prelude C12.Model C12.Corr.'
 
 
 # ------------------------------------------------------------------ scenarios
-N_FIXED_UNIT = 15
+N_FIXED_UNIT = 16
 
 def unit_scenarios(check, tier):
     rng = check.rng
@@ -1340,6 +1375,7 @@ def unit_scenarios(check, tier):
         [['sort', [3, 4]], ['sort', [4, 3]], ['attrs', [3]]],
         [['validatex', 1], ['validate', False, 7]],
         [['validatex', 1], ['validate', True, 0], ['validatex', 2]],
+        [['sort', [4, 0]], ['sort', [0, 4, 4]]],      # lists cached for an earlier field table
     ]
     n = 4 if tier == 'quick' else 40
     for _ in range(n):
